@@ -103,6 +103,10 @@ class PDLMatcher:
         if original_op.type_values and len(original_op.type_values) <= index:
             return False
 
+        if xdsl_operand.index != index:
+            # The operand is a different result of the defining operation.
+            return False
+
         self.matching_context[ssa_val] = xdsl_op.results[index]
 
         return True
